@@ -21,7 +21,7 @@ REQUIRED_MONITORS = {"shutdown_returns": 200, "pending_requests_failed": 200, "h
 
 def plan(tier, seed):
     n = 16
-    nseeds = {"quick": 1, "thorough": 24}[tier]
+    nseeds = {"quick": 4, "thorough": 24}[tier]
     return [{"name": "c18-%d" % i, "seed": seed * 1000, "index": i, "of": n, "tier": tier, "nseeds": nseeds} for i in range(n)]
 
 
@@ -39,6 +39,8 @@ def variant(vseed):
         "iter_consumer": r.random() < 0.5,
         "justborn": True,
         "cancel_one": r.choice([None, "separate", "blockwise", "blockwise"]),
+        # a transport error for one of the peers reported just before shutdown is called
+        "icmp": r.choice([None, ("10.0.0.10", 5683, 1e-7), ("10.0.0.14", 40000, 1e-7), ("10.0.0.11", 5683, 1e-7), ("10.0.0.13", 5683, 1e-3), ("10.0.0.12", 5683, 1e-7)]),
     }
 
 
@@ -193,6 +195,11 @@ def run(v, seed, shutdown_at):
         if shutdown_at is None:
             await asyncio.sleep(14.0)
         else:
+            if v.get("icmp"):
+                # reported just before shutdown is called: the requests to that peer have failed, their tasks
+                # and callbacks have not run to completion yet
+                net.inject_error(X, simnet.addr(v["icmp"][0], v["icmp"][1]), 111, delay=max(0.0, shutdown_at - v["icmp"][2]))
+                info["icmp"] = v["icmp"]
             await asyncio.sleep(shutdown_at)
             # what is pending right now?
             tm = ctx.request_interfaces[0]
